@@ -526,6 +526,15 @@ func Yield(obj interface{}, label string, write bool) {
 	s.event(s.cur, OpPoint, obj, label, write)
 }
 
+// Pt is Yield in expression position: a scheduling point on recv (an interface value: the object it holds),
+// returning recv, so that  x.M(a)  can be rewritten to  vsched.Pt(x, "I.M", w).M(a).
+func Pt[T any](recv T, label string, write bool) T {
+	if s := active; s != nil && !s.unwinding() {
+		Yield(interface{}(recv), label, write)
+	}
+	return recv
+}
+
 // Block parks the running thread until cond() holds (re-evaluated at every
 // scheduling decision). cond must depend only on state changed by hooked ops.
 func Block(obj interface{}, label string, cond func() bool) {
